@@ -301,6 +301,17 @@ def answer (k : Consts) (line : String) : Consts × String :=
         | none => "none"
         | some x => s!"some:{x}"
       | _, _, _, _, _ => "bad")
+  | ["spawn", l, mt, c, lag, hms] =>
+    -- replay of the spawner on the observed `has_more()` values (one per call, in call order)
+    (k, match olen? l, nat? mt, decResolved c, nat? lag with
+      | some l, some mt, some c, some lag =>
+        match (if hms == "-" then some [] else (splitOn hms ";").mapM decHasMore) with
+        | some env =>
+          match spRun ⟨l, mt, c⟩ lag (fun i => env.getD i .no) with
+          | some s => s!"workers={encList s.workers} calls={s.calls}"
+          | none => "diverges"
+        | none => "bad"
+      | _, _, _, _ => "bad")
   | "run" :: fs => (k, answerRun fs)
   | _ => (k, "bad-op")
 
